@@ -35,7 +35,26 @@ func samplesFor(r rule) []string {
 }
 
 var canonURLs = []string{"http://example.com/?a=1&region=eu&copy=2&lt=3&amp=4", "/shop?lang=en&section=2&notify=1", "http://example.com/a?b=c#d", "https://example.org/", "https://example.org/ok/x", "http://example.org/ok", "mailto:user@example.com", "/path/x.html", "#frag", "//cdn.example.com/x",
-	"ftp://h/f", "x-app://open", "tel:123", "rel/y", "/ok/rel", "sftp://h/p", "data:image/png;base64,iVBORw0KGgo=", "data:image/gif;base64,R0lGODlh"}
+	"ftp://h/f", "x-app://open", "tel:123", "rel/y", "/ok/rel", "sftp://h/p", "data:image/png;base64,iVBORw0KGgo=", "data:image/gif;base64,R0lGODlh", "?", "?q=1"}
+
+// references to the document itself and empty fragments, as authors write them (known finding D38:
+// net/url does not write an empty fragment; href="#" is dropped, http://example.com/a# loses its #)
+var emptyFragmentURLs = []string{"#", "http://example.com/a#", "/path/x.html#", "?q=1#", "https://example.org/ok/x#"}
+
+// hasEmptyFragmentURL: some URL-checked attribute of the document ends in an empty fragment.
+func hasEmptyFragmentURL(in string) bool {
+	for _, t := range tokenize(in) {
+		if !isOpenTag(t) {
+			continue
+		}
+		for _, a := range t.Attr {
+			if urlPos[t.Name] == a.Key && strings.HasSuffix(a.Val, "#") {
+				return true
+			}
+		}
+	}
+	return false
+}
 
 // urlConforms: would a conforming document be allowed to use v at a URL-checked position?
 func (m *Model) urlConforms(v string) bool {
@@ -171,7 +190,11 @@ func genConform(t *rapid.T, m *Model) (doc string, multiRule bool, patternEl boo
 			isURL := m.parseURLs && urlPos[ce.name] == a
 			var cands []string
 			if isURL {
-				for _, u := range canonURLs {
+				pool := canonURLs
+				if rapid.IntRange(0, 11).Draw(t, "emptyFragment") == 0 {
+					pool = emptyFragmentURLs
+				}
+				for _, u := range pool {
 					if m.urlConforms(u) && (r.re == nil || r.re.MatchString(u)) {
 						cands = append(cands, u)
 					}
@@ -359,6 +382,12 @@ func checkC07(c *Case, r *Rec) error {
 	out, _ := sanitizeStaged(c.Spec, in, stageOf(c, 2))
 	if stageOf(c, 2) >= 0 {
 		r.Class("policy_extended_after_first_use")
+	}
+	if c.Kind != "strict-replay" && hasEmptyFragmentURL(in) && knownClassEnabled("C07", "url_with_empty_fragment") {
+		if affected, err := sameModuloForced(m, in, out); err != nil || (!affected && out != in) {
+			r.Excluded("url_with_empty_fragment")
+			return nil
+		}
 	}
 	affected, err := sameModuloForced(m, in, out)
 	if err != nil {
